@@ -1533,7 +1533,12 @@ def normalise_program(P):
         table = {}
         for c in reversed(P.mro(ci.name)):
             table.update(consts.get(c, {}))
-        own_attrs = set()
+        # a constant that a subclass defines again is not a constant of this class's methods (they also run on instances of the subclass)
+        for sub in P.subclasses(ci.name)[1:]:
+            for st in P.classes[sub].node.body:
+                for tg in (st.targets if isinstance(st, ast.Assign) else [st.target] if isinstance(st, (ast.AnnAssign, ast.AugAssign)) else []):
+                    if isinstance(tg, ast.Name):
+                        table.pop(tg.id, None)
         for fn in ci.methods.values():
             t = _SelfConst(table)
             t.visit(fn)
